@@ -69,7 +69,8 @@ def well_assist(r):
 
 def well_location(r):
     def leaf(d):
-        return isinstance(d, dict) and 'loc' in d and 'file' in d and isinstance(d['loc'], tuple) and len(d['loc']) == 2
+        return isinstance(d, dict) and 'loc' in d and 'file' in d and isinstance(d['loc'], tuple) and len(d['loc']) == 2 \
+            and all(isinstance(x, int) and x >= 0 for x in d['loc'])
     return isinstance(r, list) and all(leaf(e) or (isinstance(e, list) and all(leaf(x) for x in e)) for e in r) and serialisable(r)
 
 
